@@ -16,6 +16,9 @@ import (
 
 var c14Content = []string{"o.set1", "o.set2", "o.del1", "o.setobj1", "o.setin1", "a.push", "a.ins0", "a.delL", "a.del0", "a.delM",
 	"t.insM", "t.ins0", "t.insE", "t.delF", "t.delM", "t.repM", "c.inc1", "c.incv", "tr.insT1", "tr.delT0", "tr.insP0", "tr.delP0", "tr.insTE"}
+var c14Extra = []string{"c.dec", "c.incmax", "c.inclong", "c.incf", "cl.inc1", "cl.incmax", "c.reset", "o.del2", "o.setstr1", "o.setarr1", "o.pushin1",
+	"a.ins1", "a.insL", "a.pushobj", "a.setinL", "t.del1M", "t.delAll", "t.delB", "t.ins2M", "t.insAttrM", "t.insM1", "t.repAll",
+	"m.o1+a", "m.o1+o1", "m.o1+del1", "m.o1+o2", "m.t+c", "m.t+t", "m.c+c", "m.a+a", "m.a+del", "m.obj+in"}
 var c14Approx = []string{"t.styF", "t.styB", "tr.sty0", "tr.rmsty0", "a.mv0L", "a.mvFrontL", "a.setL", "a.set0"}
 
 type c14case struct {
@@ -373,6 +376,18 @@ func c14Run(env *Env) *Result {
 		maxWord = 6
 		run([]string{"o.set1", "o.del1", "a.push", "a.delL", "a.ins0", "t.insM", "t.delF", "t.repM", "tr.insT1", "tr.delP0"}, true, "content4", 4)
 	}
+	// the rest of the editing API and changes that carry several operations:
+	// programs of <=2 (thorough 3) edits over the union alphabet
+	ext := append(append([]string{}, c14Content...), c14Extra...)
+	if env.Tier == "thorough" {
+		maxWord = 6
+		run(ext, true, "content-ext", 3)
+	} else {
+		run(ext, true, "content-ext", 2)
+	}
+	// text content outside the basic plane (offsets are UTF-16 units); every
+	// position used is 0 or the end, so no edit lands inside a surrogate pair
+	run([]string{"t.insU0", "t.insUE", "t.repAllU", "t.ins0", "t.insE", "t.delAll", "t.repAll", "o.set1"}, true, "content-u16", 3)
 	mixed := append(append([]string{}, c14Approx...), "a.push", "t.insM", "tr.insT1", "o.set1")
 	run(mixed, false, "approx", maxEdits)
 	return res
@@ -396,7 +411,7 @@ func c14Reproduce(f *Found) (bool, error) {
 	if err := json.Unmarshal(f.Case, &c); err != nil {
 		return false, err
 	}
-	diff, _ := c14Eval(&c, strings.HasSuffix(f.Sig, ":content"))
+	diff, _ := c14Eval(&c, strings.Contains(f.Sig, ":content"))
 	return diff != "", nil
 }
 
@@ -407,6 +422,8 @@ func init() {
 		Rule: "ALL programs of <=3 content edits (thorough: also <=4 over a 10-kind sub-alphabet) over a 23-kind alphabet (object set/delete/nested, array insert/delete, text insert/delete/replace, counter increase, tree text/element insert/delete without split) " +
 			"on one real Document, each followed by ALL valid Undo/Redo words of length <=5 (thorough 8); the normalised content (characters/XML, chunking merged) recorded after each edit is the reference: " +
 			"after every prefix of the word the content must equal the recorded content that many steps back/forward and CanUndo/CanRedo must match; " +
+			"third set: ALL programs of <=2 (thorough <=3) edits over the union with 32 more kinds: other counter operands (negative, wrap-around, long, float, long counter), a replaced counter, nested array/object values, more text shapes, and 10 kinds whose change carries TWO operations (set+set of one key, set+delete, two keys, add+add, add+remove, create a container and fill it, text+counter); " +
+			"fourth set: text content outside the basic plane (one character = two UTF-16 units) inserted / replaced at positions 0 and end, <=3 edits; " +
 			"second set with styles, array moves and set-by-index: Undo/Redo never fail or panic and Root()==Marshal() after each; non-trivial = words of length >= 2; distinct by construction",
 		Assume:      []string{"single replica, no remote changes (the property's quantifier); propagation to peers is C15"},
 		QuickBudget: 120 * time.Second,
